@@ -536,13 +536,11 @@ class WFSA:
         # when multiple characters emanating from the same state share a byte prefix.
         byte_wfsa = self.spawn(keep_init=True, keep_stop=True)
 
-        state_counter = 0
+        from genlm.grammar.cfg import _gen_nt
 
         def get_new_state():
-            nonlocal state_counter
-            state = f"_bytes{state_counter}"
-            state_counter += 1
-            return state
+            # globally fresh: several converted machines may be merged by name
+            return _gen_nt("_bytes")
 
         for i, a, j, w in self.arcs():
             if a == EPSILON:
